@@ -285,6 +285,9 @@ def classify(unit, res):
         txt = ""
         if site and site.get("text"):
             txt = site["text"][0]["text"].strip()
+        if "/*@aux-hint*/" in txt and cl is None:
+            tag = "auxiliary"
+            ob = f"{fn_id or 'template'}.aux_hint"
         out["failures"].append({
             "obligation": ob, "tag": tag, "kind": kind, "message": msg, "fn": fn_id,
             "clause": cl["text"] if cl else None,
